@@ -32,6 +32,7 @@ type LoopContract struct {
 	Invariants []*Clause
 	Decreases  []*Clause
 	At         string
+	OrderFree  string // reason why the iteration order of a map range cannot influence the outcome
 }
 
 type Contract struct {
@@ -48,6 +49,7 @@ type Contract struct {
 	File      string
 	Reveal    []string
 	Lets      map[string]ast.Expr
+	Assumes   []*Clause // trusted postconditions: assumed at call sites, never proved, listed in the evidence
 }
 
 type Lemma struct {
@@ -335,6 +337,11 @@ func (e *Engine) parseContractFile(file, pkg string) error {
 				return fmt.Errorf("%s: clause outside a func block", where)
 			}
 			addClause(&cur.Ensures, "ensures")
+		case "assumes":
+			if cur == nil {
+				return fmt.Errorf("%s: clause outside a func block", where)
+			}
+			addClause(&cur.Assumes, "assumes")
 		case "let":
 			i := strings.Index(rest, "=")
 			if i < 0 || cur == nil {
@@ -373,6 +380,13 @@ func (e *Engine) parseContractFile(file, pkg string) error {
 				addClause(&curLoop.Decreases, "decreases")
 			} else if cur != nil {
 				addClause(&cur.Decreases, "decreases")
+			}
+		case "orderfree":
+			if curLoop != nil {
+				curLoop.OrderFree = strings.TrimSpace(rest)
+				if curLoop.OrderFree == "" {
+					curLoop.OrderFree = "declared"
+				}
 			}
 		case "at", "interpreted":
 			if curLoop != nil {
